@@ -15,3 +15,5 @@ func verifHook(g *RaftGroup, point string, rd *etcdRaft.Ready, entry *raftpb.Ent
 func verifStart(id uint64, nodeIds []uint64, storage wal.WAL) {}
 
 func (this *RaftGroup) verifSnapshotC() chan uint64 { return nil }
+
+func verifJoinReply() {}
